@@ -4,7 +4,9 @@
 //
 //	bigintgen <repo> <verif>
 //
-// writes <verif>/coq/Gen/BigIntRoutines.v (only when its content changes).
+// writes <verif>/coq/Gen/BigIntRoutines.v and, in a second pass that also
+// translates LOOPS (emitloops.go, loopgen*.go, lists.go, ints.go, extras.go),
+// <verif>/coq/Gen/BigIntLoops.v (each only when its content changes).
 // Exit status: 0 all roots translated; 3 the file was written but some
 // functions could not be translated (each gets a marker definition
 // <name>__TRANSLATION_FAILED : unit instead of its translation, the positioned
@@ -20,6 +22,7 @@ import (
 	"fmt"
 	"os"
 	"path/filepath"
+	"strings"
 )
 
 // roots: the functions to translate, "pkg.Key" (Key = name or Recv.name).
@@ -117,7 +120,7 @@ func main() {
 		}
 	}()
 	g := &gen{repo: repo, pkgs: map[string]*pkg{}, done: map[string]*summary{}, inpr: map[string]bool{}}
-	for _, n := range []string{"constants", "utils", "mimc7", "poseidon", "babyjub"} {
+	for _, n := range []string{"constants", "utils", "mimc7", "poseidon", "babyjub", "keccak256", "goldenposeidon"} {
 		g.pkgs[n] = loadPkg(repo, n)
 	}
 	for _, r := range roots {
@@ -135,6 +138,17 @@ func main() {
 		g.recvDefs("babyjub", k[len("babyjub."):])
 	}
 	writeIfChanged(filepath.Join(verif, "coq", "Gen", "BigIntRoutines.v"), []byte(g.emitFile()))
+	// second pass, loops mode: the functions with loops and their callees
+	gl := &gen{repo: repo, pkgs: g.pkgs, done: map[string]*summary{}, inpr: map[string]bool{}, loops: true,
+		aux: map[string][]string{}, auxNames: map[string][]string{}}
+	pkgOrder = loopPkgOrder
+	for _, r := range loopRoots {
+		i := strings.Index(r, ".")
+		gl.summaryOf(r[:i], r[i+1:], nil)
+	}
+	gl.recvDefs("babyjub", "Point.Mul")
+	writeIfChanged(filepath.Join(verif, "coq", "Gen", "BigIntLoops.v"), []byte(gl.emitLoopsFile()))
+	g.nfail += gl.nfail
 	if g.nfail > 0 {
 		// exit status 3: the file was written, with a marker definition
 		// <name>__TRANSLATION_FAILED in place of each function that could not be
